@@ -495,16 +495,22 @@ func (t *Tree) checkRecursion(n *node, ruleReached []bool) bool {
 		ruleReached[id] = false
 		return consumes
 	case TypeAlternate:
+		// Every alternative can be tried at the same position.
+		consumes := true
 		for element := range n.Iterator() {
 			if !t.checkRecursion(element, ruleReached) {
-				return false
+				consumes = false
 			}
 		}
-		return true
+		return consumes
 	case TypeSequence:
 		return slices.ContainsFunc(slices.Collect(n.Iterator()), func(n *node) bool {
 			return t.checkRecursion(n, ruleReached)
 		})
+	case TypePeekFor, TypePeekNot, TypeQuery, TypeStar:
+		// The operand is entered at the same position but nothing is consumed for sure.
+		t.checkRecursion(n.Front(), ruleReached)
+		return false
 	case TypeName:
 		return t.checkRecursion(t.Rules[n.String()], ruleReached)
 	case TypePlus, TypePush, TypeImplicitPush:
